@@ -64,6 +64,12 @@ def run():
                     'non-trivial = the string contains a delimiter run')
     m = core.impl()
     quick = ck.tier == 'quick'
+    # design level: the index-based loop with per-kind bottoms (shaped like process_emphasis) refines the property tier
+    impl = core.tlc('EmphasisImpl', 'EmphasisImpl.cfg' if quick else 'EmphasisImplT.cfg', workers=core.NCPU, env={'SHARD': '-'}, timeout=3000, heap='8g', check=False)
+    if impl.error or not impl.completed:
+        raise core.MachineryError('EmphasisImpl does not refine Emphasis within the bounds: %s' % (impl.error or impl.out[-1500:]))
+    ck.add_tlc(impl)
+    ck.extra['design_level'] = 'EmphasisImpl (index-based loop, per-kind bottoms) refines Emphasis; IndexesInRange and NoEmptyRun hold: %d states' % impl.distinct
     five = ['a', ' ', '*', '_', '.']
     shards5 = [''] + [x + y for x in five if x != ' ' for y in five]
     plan = [('Emphasis5q.cfg' if quick else 'Emphasis5t.cfg', shards5),
